@@ -47,6 +47,8 @@ _add(_c("lsn_orth_rev", "LSN", [2, 2], [3, 4, 3], 1, "lsn", dict(orthogonal=True
 _add(_c("lsn_nonorth", "LSN", [2, 2], [3, 4, 3], 1, "lsn", dict(orthogonal=False), fpol="quad"))
 _add(_c("lsn_nonorth_rev", "LSN", [2, 2], [3, 4, 3], 1, "lsn", dict(orthogonal=False), fpol="negquad", psi_sign=-1.0))
 _add(_c("cdn_orth", "CDN", [2, 2], [3, 3, 3, 3, 3, 3], 1, "cdn", dict(orthogonal=True, **DN), fpol="quad", pressure="quad"))
+# gridded as a connected double null (nx_inter_sep = 0) although the X-points are slightly unbalanced (seed C01_leg_sep_contour_own_psi)
+_add(_c("cdn_orth_unbal", "CDN", [2, 2], [3, 3, 3, 3, 3, 3], 1, "cdn_unbal", dict(orthogonal=True, **DN), fpol="quad", pressure="quad"))
 _add(_c("ldn_orth", "LDN", [2, 1, 2], [3, 3, 3, 3, 3, 3], 1, "ldn", dict(orthogonal=True, **DN), fpol="quad", pressure="quad"))
 _add(_c("udn_nonorth", "UDN", [2, 1, 2], [4, 4, 4, 4, 4, 4], 1, "udn", dict(orthogonal=False, **DN), fpol="quad", pressure="quad"))
 _add(_c("core_orth", "CORE", [3], [8], 0, None, dict(orthogonal=True)))
@@ -174,7 +176,7 @@ ENVELOPE_QUICK = ["env_ny1", "env_g4", "env_nfine5", "env_len_small", "env_nx1",
 ENVELOPE = ENVELOPE_QUICK + ["env_sol_wide", "env_len_big", "env_core_deep", "env_cdn_second_inside", "env_nonorth_n50", "env_sepmult", "env_lim"]
 
 CORE_CAMPAIGN = ["lsn_orth", "usn_orth", "lsn_orth_rev", "lsn_nonorth", "lsn_nonorth_rev", "cdn_orth", "ldn_orth",
-                 "udn_nonorth", "core_orth", "lim_orth", "lsn_orth_x2", "lsn_orth_g2", "lsn_orth_extrap", "udn_orth", "xpt_orth", "lsn_tilt_orth", "lsn_orth_dct"]
+                 "udn_nonorth", "core_orth", "lim_orth", "lsn_orth_x2", "lsn_orth_g2", "lsn_orth_extrap", "udn_orth", "xpt_orth", "lsn_tilt_orth", "lsn_orth_dct", "cdn_orth_unbal"]
 
 # ---- extended campaign (thorough tier) ------------------------------------------------
 _add(_c("usn_nonorth", "USN", [2, 2], [3, 4, 3], 1, "usn", dict(orthogonal=False), fpol="quad"))
@@ -192,7 +194,11 @@ _add(_c("lsn_orth_wide", "LSN", [3, 3], [4, 6, 4], 1, "lsn", dict(orthogonal=Tru
 _add(_c("lsn_orth_n50", "LSN", [2, 2], [3, 4, 3], 1, "lsn", dict(orthogonal=True, finecontour_Nfine=50), fpol="quad", pressure="quad", wall="slanted"))
 _add(_c("lsn_orth_n200", "LSN", [2, 2], [3, 4, 3], 1, "lsn", dict(orthogonal=True, finecontour_Nfine=200), fpol="quad", pressure="quad", wall="slanted"))
 
-EXTENDED_CAMPAIGN = CORE_CAMPAIGN + ["usn_nonorth", "cdn_nonorth", "ldn_nonorth", "lsn_orth_g0", "lsn_orth_lop",
+# the second method of the default refinement chain on its own ('line' and 'newton' alone are refused on these equilibria: SolutionError)
+_add(_c("lsn_orth_integrate", "LSN", [2, 2], [3, 4, 3], 1, "lsn", dict(orthogonal=True, refine_methods="integrate"), fpol="quad"))
+_add(_c("lsn_nonorth_integrate", "LSN", [2, 2], [3, 4, 3], 1, "lsn", dict(orthogonal=False, refine_methods="integrate"), fpol="quad"))
+REFINE_GRIDS = ["lsn_orth_integrate", "lsn_nonorth_integrate"]
+EXTENDED_CAMPAIGN = CORE_CAMPAIGN + REFINE_GRIDS + ["usn_nonorth", "cdn_nonorth", "ldn_nonorth", "lsn_orth_g0", "lsn_orth_lop",
                                      "cdn_orth_uo", "ldn_orth_uo", "core_nonorth", "lim_orth_g2", "lsn_orth_wide", "lsn_orth_n50", "lsn_orth_n200", "lsn_orth_weak", "xpt_nonorth", "lsn_tilt_nonorth", "ldn_orth_wide"]
 
 
